@@ -18,6 +18,7 @@ ASSUMPTIONS = ["the global NumPy RNG and the unseeded RandomState() of the gain 
 
 def bounds(tier):
     return {"n1d": 6 if tier == "quick" else 8, "n2d": 4 if tier == "quick" else 5,
+            "medium": "n = 18, 24, 21 continuous 2-D points, RandomState(seed).randn for seed < %d, max_iter in {1|2, 20}" % (12 if tier == "quick" else 60),
             "labelvec": "k^n<=243" if tier == "quick" else "k^n<=2187",
             "gseeds": [0, 1] if tier == "quick" else [0, 1, 2, 3]}
 
@@ -32,6 +33,12 @@ def cases(tier, seed):
                 if len(set(ms)) == 1:
                     continue
                 yield {"kind": "fit", "pts": [list(grid[i]) for i in ms], "gseeds": b["gseeds"]}
+    # medium-size designs (continuous 2-D points from an enumerated seed space): the transfer queues of the gain strategy
+    # only hold several entries per pair of clusters when a cluster has >= 6 points
+    S = 12 if tier == "quick" else 60
+    for (k, mult) in ((3, 6), (4, 6), (3, 7)):
+        for s0 in range(0, S, 4):
+            yield {"kind": "medium", "k": k, "n": k * mult + (1 if mult == 7 else 0) * 0, "seeds": list(range(s0, s0 + 4))}
     # every initial label vector (kmeans0=False) on a few data sets
     datasets = [[[0.0], [1.0], [2.0], [3.0], [4.0]], [[0.0], [0.0], [1.0], [3.0], [3.0]],
                 [[0.0, 0.0], [1.0, 0.0], [0.0, 1.0], [2.0, 2.0], [2.0, 1.0]],
@@ -190,8 +197,20 @@ def run_case(case):
             sigs.add(sig)
             viol.append({"sig": sig, "msg": msg})
 
-    X = numpy.array(case["pts"], dtype=numpy.float64)
+    X = numpy.array(case.get("pts", [[0.0]]), dtype=numpy.float64)
     n = X.shape[0]
+    if case["kind"] == "medium":
+        k, n = case["k"], case["n"]
+        for sd in case["seeds"]:
+            Xm = numpy.random.RandomState(sd).randn(n, 2)
+            for strategy in ("gain", "distance"):
+                for kmeans0 in (False, True):
+                    for mi in ((1 if not kmeans0 else 2), 20):
+                        m = _one_fit(numpy, ConstraintKMeans, Xm, k, strategy, kmeans0, sd, sd, sd, bad, max_iter=mi)
+                        cnt += 1
+                        if m is not None and hasattr(m, "labels_"):
+                            outcomes.add((k, tuple(sorted(numpy.bincount(m.labels_, minlength=k).tolist()))))
+        return {"viol": viol, "nontrivial": True, "states": cnt, "transitions": cnt, "outcome": tuple(sorted(outcomes))[:50]}
     if case["kind"] == "fit":
         probes = numpy.vstack([X[:1], X[-1:], X[:1] + 0.5, X[-1:] - 1.5, X[n // 2:n // 2 + 1]])
         for k in range(2, min(4, n) + 1):
@@ -201,9 +220,12 @@ def run_case(case):
                         for g in case["gseeds"]:
                             env = g
                             first = (rs == 0 and g == case["gseeds"][0])
-                            m = _one_fit(numpy, ConstraintKMeans, X, k, strategy, kmeans0, rs, g, env, bad,
-                                         probes=probes if (first and kmeans0) else None)
-                            cnt += 1
+                            # few iterations: the balancing step is then the last thing that touches the labels
+                            iters = (20, 1 if not kmeans0 else 2) if g == case["gseeds"][0] else (20,)
+                            for mi in iters:
+                                m = _one_fit(numpy, ConstraintKMeans, X, k, strategy, kmeans0, rs, g, env, bad,
+                                             probes=probes if (first and kmeans0 and mi == 20) else None, max_iter=mi)
+                                cnt += 1
                             if m is not None and hasattr(m, "labels_"):
                                 outcomes.add((k, tuple(sorted(numpy.bincount(m.labels_, minlength=k).tolist()))))
         nontrivial = True
